@@ -16,7 +16,7 @@ Open Scope Z_scope.
 (** 1. the value of a well-typed expression belongs to its inferred type *)
 Theorem typing_value_sound : forall callf FS G en e t v,
   callf_ok FS callf -> env_ok G en -> infer true FS G e = Some t ->
-  eval true callf FS G en e = R_ok v -> has_ty v t = true.
+  eval callf FS G en e = R_ok v -> has_ty v t = true.
 Proof.
   intros callf FS G en e t v Hc He Hi Hv. pose proof (eval_sound callf FS Hc e G en t He Hi) as R.
   rewrite Hv in R. exact R.
@@ -80,8 +80,8 @@ Qed.
 Theorem accepted_index_in_range : forall callf FS G en a k ta n t va,
   callf_ok FS callf -> env_ok G en ->
   infer true FS G a = Some (T_List ta (Some n)) -> infer true FS G (XIndex a (XLit (LNat k))) = Some t ->
-  eval true callf FS G en a = R_ok va ->
-  exists x, eval true callf FS G en (XIndex a (XLit (LNat k))) = R_ok x.
+  eval callf FS G en a = R_ok va ->
+  exists x, eval callf FS G en (XIndex a (XLit (LNat k))) = R_ok x.
 Proof.
   intros callf FS G en a k ta n t va Hc He Ha Hi Hv. cbn [infer] in Hi. rewrite Ha in Hi. cbn [index_ty] in Hi.
   destruct (idx_ok (Some n) k) eqn:Ek; try discriminate. unfold idx_ok in Ek.
